@@ -249,6 +249,52 @@ func (c *Ctx) litFields(info *types.Info, lit *ast.CompositeLit) map[string]ast.
 	return out
 }
 
+// recordFields: the fields of a record given as a composite literal, or built by a constructor helper
+// of the repository whose body is a single `return T{...}` (or a call of another such helper): the
+// helper's parameters are replaced by the arguments of the call.
+func (c *Ctx) recordFields(info *types.Info, e ast.Expr, depth int) map[string]ast.Expr {
+	e = unparen(e)
+	if u, ok := e.(*ast.UnaryExpr); ok && u.Op == token.AND {
+		e = unparen(u.X)
+	}
+	if lit, ok := e.(*ast.CompositeLit); ok {
+		return c.litFields(info, lit)
+	}
+	call, ok := e.(*ast.CallExpr)
+	if !ok || depth == 0 {
+		return nil
+	}
+	g := calleeOf(info, call)
+	if g == nil || !inRepo(g) {
+		return nil
+	}
+	gi := c.FuncOfObj(g)
+	if gi == nil || gi.Decl.Body == nil || len(gi.Decl.Body.List) != 1 {
+		return nil
+	}
+	ret, ok := gi.Decl.Body.List[0].(*ast.ReturnStmt)
+	if !ok || len(ret.Results) != 1 {
+		return nil
+	}
+	ginfo := gi.Pkg.TypesInfo
+	inner := c.recordFields(ginfo, ret.Results[0], depth-1)
+	if inner == nil {
+		return nil
+	}
+	out := map[string]ast.Expr{}
+	for k, v := range inner {
+		out[k] = v
+		if po := identObj(ginfo, v); po != nil {
+			for i := range call.Args {
+				if paramObj(ginfo, gi.Decl, i) == po {
+					out[k] = call.Args[i]
+				}
+			}
+		}
+	}
+	return out
+}
+
 func (c *Ctx) compareRecord(fi *FuncInfo, fl *ast.FuncLit, fields map[string]ast.Expr, lit *ast.CompositeLit) {
 	info := fi.Pkg.TypesInfo
 	env := c.newLFEnv(info, fl.Body)
